@@ -92,3 +92,24 @@ type AccessEvent struct {
 }
 
 func locName(loc any) string { return fmt.Sprintf("%v", loc) }
+
+// MapID identifies a map for access logging (its header address).
+func MapID[K comparable, V any](m map[K]V) string { return fmt.Sprintf("map:%p", m) }
+
+// AccLog is a scheduling point that logs an access to a location from the current goroutine (C13/C14 subjects).
+func AccLog(line int, loc any, write bool) {
+	s := active
+	if s == nil {
+		return
+	}
+	s.point(&op{kind: "acc", obj: loc, desc: fmt.Sprintf("acc line %d", line), enabled: func() bool { return true }})
+	name := ""
+	switch x := loc.(type) {
+	case string:
+		name = x
+	default:
+		name = fmt.Sprintf("%p", x)
+	}
+	s.exec.AccLog = append(s.exec.AccLog, AccessEvent{Site: fmt.Sprint(line), G: s.cur.id, Loc: name, W: write})
+	s.keep = append(s.keep, loc) // keep objects alive: equal address means same object within one execution
+}
